@@ -3,7 +3,7 @@
     (AdaptiveDistance state machine).  Only statements here; proofs in Proofs/C12_*.v. *)
 From Coq Require Import String.
 From Coq Require Import ZArith QArith Qabs List Bool Arith.
-From Elfi Require Import Num.Distance Num.Welford Proofs.C12_Welford Proofs.C12_Distance.
+From Elfi Require Import Num.Distance Num.Welford Proofs.C12_Welford Proofs.C12_Distance Proofs.C12_Sampler.
 Import ListNotations.
 Open Scope Q_scope.
 
@@ -85,6 +85,66 @@ Print Assumptions C12_newest_distance_scaled.
 Theorem C12_first_distance_plain : forall u v, weuclid2 None u v == dist2 None u v.
 Proof. exact first_distance_plain. Qed.
 Print Assumptions C12_first_distance_plain.
+
+(** *** a sampler round (Rejection on an adaptive node; every population of AdaptiveDistanceSMC)
+
+    [rejection_round a bs] = [Rejection.__init__] (new adaptation round), one [_merge_batch] per batch
+    (the WHOLE batch goes to [add_data]; the acceptance mask [sb_accept] only selects the kept samples),
+    [extract_result] ([update_distance]).  From ANY node state, for ANY acceptance masks (threshold,
+    quantile or n_sim objective; batches in which nothing was accepted) and ANY split into batches:
+    exactly one function is appended and its weights are the inverse population variances of ALL rows
+    simulated in the round. *)
+Theorem C12_sampler_round_all_rows :
+  forall a w bs,
+    round_wf w bs ->
+    exists a2 w2,
+      rejection_round a bs = Some a2
+      /\ a_funcs a2 = a_funcs a ++ [Some w2] /\ a_w2 a2 = a_w2 a ++ [Some w2]
+      /\ a_store a2 = store0 /\ length w2 = w
+      /\ forall j, (j < w)%nat -> nth j w2 0 == / colvar (round_rows bs) j.
+Proof. exact rejection_round_all_rows. Qed.
+Print Assumptions C12_sampler_round_all_rows.
+
+Theorem C12_sampler_round_ignores_acceptance :
+  forall a bs1 bs2, map sb_data bs1 = map sb_data bs2 -> rejection_round a bs1 = rejection_round a bs2.
+Proof. exact rejection_round_ignores_acceptance. Qed.
+Print Assumptions C12_sampler_round_ignores_acceptance.
+
+(** same rows, other batch sizes, other masks, other history of the node: equal newest weights *)
+Theorem C12_sampler_round_ignores_batching :
+  forall a1 a2 w bs1 bs2,
+    round_wf w bs1 -> round_wf w bs2 -> round_rows bs1 = round_rows bs2 ->
+    exists r1 r2 u1 u2,
+      rejection_round a1 bs1 = Some r1 /\ rejection_round a2 bs2 = Some r2
+      /\ last (a_funcs r1) None = Some u1 /\ last (a_funcs r2) None = Some u2
+      /\ length u1 = w /\ length u2 = w
+      /\ forall j, (j < w)%nat -> nth j u1 0 == nth j u2 0.
+Proof. exact rejection_round_ignores_batching. Qed.
+Print Assumptions C12_sampler_round_ignores_batching.
+
+(** any number of rounds on one node: distance function [k+1] carries the weights of round [k] alone
+    (no rows carried over from, and no change to, earlier rounds) *)
+Theorem C12_sampler_rounds_all_rows :
+  forall w rs a,
+    Forall (round_wf w) rs ->
+    exists a2 ws,
+      rejection_rounds a rs = Some a2
+      /\ a_funcs a2 = a_funcs a ++ map Some ws
+      /\ (rs <> [] -> a_store a2 = store0)
+      /\ Forall2 (fun w2 bs => length w2 = w
+                               /\ forall j, (j < w)%nat -> nth j w2 0 == / colvar (round_rows bs) j) ws rs.
+Proof. exact rejection_rounds_all_rows. Qed.
+Print Assumptions C12_sampler_rounds_all_rows.
+
+(** the script replayed by the correspondence check for a sampler round ([OInit], one [OBatch] per
+    simulated batch, [OUpdate]) ends in the state [rejection_round] describes *)
+Theorem C12_round_script_is_sampler_round :
+  forall obsd a bs sb a2,
+    Forall2 (fun b s => column_stack (fst b) = Some (sb_data s) /\ snd b = sb_accept s) bs sb ->
+    rejection_round a sb = Some a2 ->
+    exec obsd a (round_script bs) = a2.
+Proof. exact round_script_is_rejection_round. Qed.
+Print Assumptions C12_round_script_is_sampler_round.
 
 (** *** plain distance nodes: shape plumbing for every metric *)
 
@@ -193,6 +253,24 @@ Example C12_example_distance :
 Proof.
   cbv zeta. split; [vm_compute; reflexivity|]. split; [vm_compute; reflexivity|].
   eexists. split; vm_compute; reflexivity.
+Qed.
+
+(** a threshold round: three batches of two rows, the middle batch accepts nothing and only two of the
+    six rows are accepted; the appended weights are 1/variance of all six rows (column 0: values
+    1,2,3,4,5,9 -> variance 20/3; column 1: 0,2,0,2,0,2 -> variance 1), not of the two accepted rows
+    (which would give 1/4 and a division by zero) *)
+Example C12_example_sampler_round :
+  let bs := [ {| sb_data := [[1;0];[2;2]]; sb_accept := [true; false] |};
+              {| sb_data := [[3;0];[4;2]]; sb_accept := [false; false] |};
+              {| sb_data := [[5;0];[9;2]]; sb_accept := [true; false] |} ] in
+  round_wf 2 bs
+  /\ (exists a2, rejection_round astate0 bs = Some a2 /\ a_funcs a2 = [None; Some [3 # 20; 1]])
+  /\ map (colvar (round_rows bs)) [0%nat; 1%nat] = [20 # 3; 1].
+Proof.
+  cbv zeta. split; [|split].
+  - split; [discriminate|]. repeat constructor; discriminate.
+  - eexists. split; vm_compute; reflexivity.
+  - vm_compute. reflexivity.
 Qed.
 
 Example C12_example_kwargs :
